@@ -447,3 +447,26 @@ def from_library(exc: BaseException) -> str | None:
         if "/joserfc/" in fr.filename and "/verif/" not in fr.filename:
             return f"{type(exc).__name__}@{fr.filename.split('/joserfc/')[-1]}:{fr.name}"
     return None
+
+
+def containers(v):
+    if isinstance(v, dict):
+        yield v
+        for x in v.values():
+            yield from containers(x)
+    elif isinstance(v, list):
+        yield v
+        for x in v:
+            yield from containers(x)
+
+
+def scribble(v):
+    """edit every nested container in place (children first)"""
+    for c in list(containers(v))[::-1]:
+        if isinstance(c, dict):
+            for k in list(c)[:1]:
+                del c[k]
+            c["scribble"] = [1]
+        else:
+            c.append("scribble")
+            c[0] = None
